@@ -48,6 +48,10 @@ GATE_JSON = os.path.join(GEN_DIR, "MjxGate.json")
 TOL_MATH = 1e-12     # closed-form kernels on Float: observed <= 5e-16 relative
 TOL_PIPE = 1e-6      # DESIGN §5.C43; observed (calibration seeds 0..40): kinematics <= 1e-14, smooth dynamics <= 1e-11,
 #                      solver-dependent quantities <= 2e-8 with the tightened solver tolerance
+# contact geometry and everything downstream of it: MJX regularises closest_segment_point with `+ 1e-6` in the denominator
+# (math.py), i.e. capsule contacts deviate by design by ~1e-6/|segment|^2 (observed up to 3e-5 in the normal); bound 2e-4
+TOL_CONTACT = 2e-4
+CONTACT_DEP = ("qfrc_constraint", "qacc", "sensordata", "qvel", "qpos", "qacc_warmstart", "act")
 fbits, frombits = kernelval.fbits, kernelval.frombits
 
 
@@ -90,8 +94,8 @@ MAPPING = {
     "motion_cross": ("mju_crossMotion", lambda r: vec(r, 12), _same, 0, "all inputs"),
     "motion_cross_force": ("mju_crossForce", lambda r: vec(r, 12), _same, 0, "all inputs"),
     "inert_mul": ("mju_mulInertVec", lambda r: vec(r, 16), _same, 0, "all inputs"),
-    "make_frame": ("mju_makeFrame", lambda r: vec(r, 3), lambda a: [fbits(x) for x in a] + [fbits(0.0)] * 3, 0,
-                   "x axis given, y axis zero on the C side (the branch MJX implements)"),
+    "make_frame": ("mju_makeFrame", lambda r: [x * r.uniform(0.6, 3.0) for x in unit(r, 3)], lambda a: [fbits(x) for x in a] + [fbits(0.0)] * 3, 0,
+                   "|x| >= 0.5 (below, mju_makeFrame raises mju_error), y axis zero on the C side (the branch MJX implements)"),
     "transform_motion": ("mju_transformSpatial", lambda r: vec(r, 6) + vec(r, 3) + vec(r, 9),
                          lambda a: [fbits(x) for x in a[:6]] + ["i0"] + [fbits(x) for x in a[6:9]] + [fbits(0.0)] * 3 + [fbits(x) for x in a[9:]], 0,
                          "flg_force = 0, oldpos = 0, newpos = offset"),
@@ -248,7 +252,7 @@ class Pair:
             n += 1
             if len(cv) != len(v):
                 bad.append("%s: %d vs %d entries" % (k, len(cv), len(v)))
-            elif cv and reldev(cv, v) > 1e-13:
+            elif cv and reldev(cv, v) > 1e-9:
                 bad.append("%s: deviation %.3g" % (k, reldev(cv, v)))
         return n, bad
 
@@ -271,10 +275,12 @@ class Pair:
                 st[k] = v
         return st
 
-    def compare(self, fields, tag, replay, tol=TOL_PIPE, key_prefix="c43:field:"):
+    def compare(self, fields, tag, replay, tol=TOL_PIPE, key_prefix="c43:field:", ncon=0):
         out = json.loads(self.h.ask("out " + " ".join(fields)))
         worst = None
+        tol0 = tol
         for f in fields:
+            tol = TOL_CONTACT if (ncon and f in CONTACT_DEP) else tol0
             c, m = self.cnum(f), out.get(f)
             if c is None or m is None:
                 continue
@@ -314,6 +320,21 @@ class Pair:
         if not d <= TOL_PIPE:
             self.orc.fail("c43:field:forward:M", "joint-space inertia matrix differs by %.3g" % d, dict(replay, c=dense[:12], mjx=out[:12]))
 
+    def is_static(self, geom):
+        """the geom's body has no degree of freedom up to the world (world, static and mocap bodies): the C engine filters
+        pairs of such bodies, MJX lists them (their Jacobian is zero, so they never become an active constraint row)"""
+        def arr(n):
+            return [int(float(x)) for x in self.c.ask("numm " + n).split(":", 1)[1].split()]
+        if getattr(self, "_static_for", None) is not self.lines:
+            self._gb, self._par, self._dn = arr("geom_bodyid"), arr("body_parentid"), arr("body_dofnum")
+            self._static_for = self.lines
+        b = self._gb[geom]
+        while b != 0:
+            if self._dn[b]:
+                return False
+            b = self._par[b]
+        return True
+
     def compare_contacts(self, replay):
         co = self.c.ask("contactsfull 0")
         cc = []
@@ -343,10 +364,13 @@ class Pair:
             fr = max(abs(a - b) for a, b in zip(c["frame"][:3], m["frame"][:3]))   # the contact normal
             self.dev["contact:dist/pos"] = max(self.dev.get("contact:dist/pos", 0.0), best)
             self.dev["contact:normal"] = max(self.dev.get("contact:normal", 0.0), fr)
-            if not (best <= TOL_PIPE * 10 and fr <= TOL_PIPE * 10 and c["dim"] == m["dim"]):
+            if not (best <= TOL_CONTACT and fr <= TOL_CONTACT and c["dim"] == m["dim"]):
                 self.orc.fail("c43:contact:geometry", "contact between geoms %s differs: dist/pos by %.3g, normal by %.3g, dim %d vs %d" % (c["geom"], best, fr, c["dim"], m["dim"]),
                               dict(replay, c_contact=c, mjx_contact=m))
-        extra = [m for i, m in enumerate(mc) if i not in used]
+        extra = [m for i, m in enumerate(mc) if i not in used and not (self.is_static(m["geom"][0]) and self.is_static(m["geom"][1]))]
+        nss = len([m for i, m in enumerate(mc) if i not in used]) - len(extra)
+        if nss:
+            self.ctx.extra["static_static_contacts_listed_by_mjx_only"] = self.ctx.extra.get("static_static_contacts_listed_by_mjx_only", 0) + nss
         if extra:
             self.orc.fail("c43:contact:extra-in-mjx", "MJX reports %d active contact(s) that C does not (first between geoms %s, dist %.6g)" % (len(extra), extra[0]["geom"], extra[0]["dist"]),
                           dict(replay, mjx_contact=extra[0], c_contacts=cc[:6]))
@@ -366,7 +390,7 @@ class Pair:
             c, m = sorted(c), sorted(e[name])
             d = reldev(c, m)
             self.dev["efc:" + name] = max(self.dev.get("efc:" + name, 0.0), d)
-            if not d <= TOL_PIPE * 10:
+            if not d <= TOL_CONTACT:
                 self.orc.fail("c43:efc:" + name, "sorted %s differs between C and MJX by %.3g" % (f, d), dict(replay, c=c[:12], mjx=m[:12]))
 
 
@@ -384,18 +408,45 @@ class Oracle:
 SOLVER_TIGHT = ["option tolerance 1e-14", "option iterations 100", "option ls_iterations 50"]
 
 
+def drop_handles(lines, handles):
+    """remove the creation line and every `set/name/wrap` line of the given handles"""
+    hs = {str(h) for h in handles}
+    return [l for l in lines if not (len(l.split()) > 1 and l.split()[1] in hs and l.split()[0] not in ("option", "spec", "compiler"))]
+
+
 def agree_model(rng, quick):
-    """a model inside MJX's feature set on which bitwise-independent agreement with C is expected:
-    analytic colliders (plane, sphere, capsule), solver tolerance tightened on both sides."""
-    contacts = rng.choice((0.0, 1.0, 1.0))
-    over = {"geom_types": ("sphere", "capsule"), "contacts": contacts, "nbody": (1, 4), "plane": 0.8 if contacts else 0.3,
-            "condim": (3, 3, 4, 6, 1), "mocap": 0.15, "equalities": 0.25, "tendons": 0.3, "sensors": (0, 5), "pairs": 0.0,
-            "actuators": (0, 3), "gravcomp": rng.choice((0.0, 0.0, 0.3)), "multi_joint": 0.2, "no_filterparent": 0.1}
-    mdl = G.make_model(rng, over, SOLVER_TIGHT)
+    """a model inside MJX's feature set on which agreement with C is expected: analytic colliders (plane, sphere, capsule),
+    solver tolerance tightened on both sides.  The confirmed findings (each exercised by its own directed case in
+    run_directed) are kept out of this generic comparison so that it keeps its sensitivity to everything else:
+    implicitfast with free joints, elliptic cone without frictional contacts, connect/weld equalities, bodies attached to
+    a mocap body, models without degrees of freedom."""
+    for _ in range(20):
+        contacts = rng.choice((0.0, 1.0, 1.0))
+        over = {"geom_types": ("sphere", "capsule"), "contacts": contacts, "nbody": (1, 4), "plane": 0.8 if contacts else 0.3,
+                "condim": (3, 3, 4, 6, 1), "mocap": 0.15, "equalities": 0.4, "tendons": 0.3, "sensors": (0, 5), "pairs": 0.0,
+                "actuators": (0, 3), "gravcomp": rng.choice((0.0, 0.0, 0.3)), "multi_joint": 0.2, "no_filterparent": 0.1}
+        mdl = G.make_model(rng, over, SOLVER_TIGHT)
+        if mdl.nv == 0:
+            continue
+        break
     has_free = any(j["type"] == "free" for j in mdl.joints)
     has_plane = any(g["type"] == "plane" for g in mdl.geoms)
+    # connect / weld equalities out
+    eqh = []
+    for i, l in enumerate(mdl.lines):
+        w = l.split()
+        if w[0] == "set" and w[2] == "type" and int(w[3]) in (E("mjEQ_CONNECT"), E("mjEQ_WELD")) and ("equality " + w[1]) in mdl.lines:
+            eqh.append(w[1])
+    if eqh:
+        mdl.lines = drop_handles(mdl.lines, eqh)
+        mdl.equalities = []
+    # a mocap body with children becomes an ordinary static body
+    parents = {l.split()[2] for l in mdl.lines if l.startswith("body ")}
+    mdl.lines = [l for l in mdl.lines if not (l.split()[0] == "set" and l.split()[2:] == ["mocap", "1"] and l.split()[1] in parents)]
+    nmocap = sum(1 for l in mdl.lines if l.split()[0] == "set" and l.split()[2:] == ["mocap", "1"])
+    if nmocap != mdl.nmocap:
+        mdl.nmocap = nmocap
     fix = {}
-    # known findings, each exercised by its own directed case below: keep them out of the generic comparison
     if mdl.options["integrator"] == "implicitfast" and has_free:
         fix["integrator"] = E("mjINT_" + rng.choice(("EULER", "RK4")))
     if mdl.options["cone"] == "elliptic" and not (contacts and has_plane):
@@ -461,9 +512,9 @@ def run_agree(ctx, pair, orc, rng, quick, nmodels):
                 orc.fail("c43:mjx-forward-raises", "mjx.forward raised on a model put_model accepted (see harness stderr)", rps)
                 break
             ctx.count((mi, si, "forward"))
-            pair.compare(FWD_FIELDS, "forward", rps)
-            pair.compare_M(rps)
             ncon = pair.compare_contacts(rps)
+            pair.compare(FWD_FIELDS, "forward" + ("+contacts" if ncon else ""), rps, ncon=ncon)
+            pair.compare_M(rps)
             pair.compare_efc(rps)
             hist["states_with_contacts" if ncon else "states_without_contacts"] = hist.get("states_with_contacts" if ncon else "states_without_contacts", 0) + 1
             # one step from the same state
@@ -473,7 +524,7 @@ def run_agree(ctx, pair, orc, rng, quick, nmodels):
                 orc.fail("c43:mjx-step-raises", "mjx.step raised on a model put_model accepted", rps)
                 break
             ctx.count((mi, si, "step"))
-            pair.compare(STEP_FIELDS, "step", rps)
+            pair.compare(STEP_FIELDS, "step" + ("+contacts" if ncon else ""), rps, ncon=ncon)
             if si == 0 and mi < 2:
                 ctx.sample({"model": mi, "options": mdl.options, "nq": pair.sizes["nq"], "ncon": ncon,
                             "qacc_c": (pair.cnum("qacc") or [])[:4]})
@@ -522,7 +573,7 @@ def gate_variants():
         L = ["body 2 0", "set 2 pos 0 0 0.5", "freejoint 3 2", "geom 4 2", "set 4 type %d" % E("mjGEOM_" + a.upper()), "set 4 size " + sizes[a],
              "body 5 0", "set 5 pos 0.1 0 0.5", "freejoint 6 5", "geom 7 5", "set 7 type %d" % E("mjGEOM_" + b.upper()), "set 7 size " + sizes[b]]
         V.append(("collision=%s-%s" % (a, b), L, ok))
-    V.append(("elliptic+condim1", ["option cone %d" % E("mjCONE_ELLIPTIC")] + BASE + ["set 4 condim 1"], False))
+    V.append(("elliptic+condim1", ["option cone %d" % E("mjCONE_ELLIPTIC")] + BASE + ["set 4 condim 1", "set 1 condim 1"], False))
     V.append(("implicitfast+fluid", ["option integrator %d" % E("mjINT_IMPLICITFAST"), "option density 1.2"] + BASE, False))
     V.append(("euler+fluid", ["option density 1.2"] + BASE, True))
     return V
@@ -631,13 +682,69 @@ def run_directed(ctx, pair, orc):
                      "a pendulum with an accelerometer and no constraint rows: C reports %s, MJX %s — mjx.forward returns right after "
                      "`if d._impl.efc_J.size == 0` and never calls sensor.sensor_acc" % (c, m),
                      {"model_description": L, "sensordata_c": c, "sensordata_mjx": m})
+    # 5. connect / weld rows: the C engine subtracts the Jdot*v correction from aref (mj_Jdotv), MJX does not
+    L = ["body 2 0", "set 2 pos 0 0 1", "joint 3 2", "set 3 axis 0 1 0", "geom 4 2", "set 4 size 0.1", "set 4 pos 0.3 0 0", "set 4 contype 0",
+         "set 4 conaffinity 0", "name 2 b", "body 5 2", "set 5 pos 0.6 0 0", "joint 6 5", "set 6 axis 0 1 0", "geom 7 5", "set 7 size 0.1",
+         "set 7 pos 0.3 0 0", "set 7 contype 0", "set 7 conaffinity 0", "name 5 c", "equality 8", "set 8 type %d" % E("mjEQ_CONNECT"),
+         "set 8 objtype %d" % E("mjOBJ_BODY"), "set 8 name1 c", "set 8 name2 world", "set 8 data 0.6 0 0"]
+    co, ho = pair.load(L)
+    orc.n += 1
+    if pair.c_ok and ho.startswith("ok"):
+        st = {"qvel": [2.0, -3.0]}
+        pair.set_state(st)
+        pair.c.ask("forward 0")
+        pair.h.ask("forward", timeout=900)
+        c = sorted(pair.cnum("efc_aref") or [])
+        m = sorted(json.loads(pair.h.ask("out efc"))["efc"]["aref"])
+        d = reldev(c, m) if len(c) == len(m) and c else float("inf")
+        out.append({"case": "connect equality, joint velocities (2,-3)", "sorted_efc_aref_c": c, "sorted_efc_aref_mjx": m})
+        if not d <= TOL_PIPE:
+            orc.fail("c43:equality-jdotv-correction-missing",
+                     "connect equality on a moving double pendulum: the reference acceleration of the equality rows differs (C %s, MJX %s): "
+                     "mj_referenceConstraint subtracts the Jdot*v correction for connect/weld rows (mj_Jdotv), mjx constraint.py has no such term" % (c, m),
+                     {"model_description": L, "state": st, "sorted_efc_aref_c": c, "sorted_efc_aref_mjx": m})
+    # 6. a body attached to a mocap body: kinematics overwrites the mocap body's pose after the tree scan
+    L = ["body 2 0", "set 2 mocap 1", "set 2 pos 0 0 1", "geom 3 2", "set 3 size 0.1", "set 3 contype 0", "set 3 conaffinity 0", "body 4 2",
+         "set 4 pos 0.5 0 0", "joint 5 4", "set 5 axis 0 1 0", "geom 6 4", "set 6 size 0.1", "set 6 pos 0.2 0 0", "set 6 contype 0", "set 6 conaffinity 0"]
+    co, ho = pair.load(L)
+    orc.n += 1
+    if pair.c_ok and ho.startswith("ok"):
+        st = {"mocap_pos": [1.0, 2.0, 3.0], "mocap_quat": [0.7071067811865476, 0.0, 0.0, 0.7071067811865476]}
+        pair.set_state(st)
+        pair.c.ask("forward 0")
+        pair.h.ask("forward", timeout=900)
+        c, m = pair.cnum("xpos"), json.loads(pair.h.ask("out xpos"))["xpos"]
+        d = reldev(c, m)
+        out.append({"case": "body attached to a mocap body", "xpos_c": c, "xpos_mjx": m})
+        if not d <= TOL_PIPE:
+            orc.fail("c43:mocap-children-ignore-mocap-pose",
+                     "a body attached to a mocap body: with mocap_pos=(1,2,3) and a 90 degree mocap_quat the child is at %s in C and at %s in MJX "
+                     "(smooth.kinematics sets xpos/xquat of the mocap body after the tree scan, so its children are placed from the model pose)" % (c[6:9], m[6:9]),
+                     {"model_description": L, "state": st, "xpos_c": c, "xpos_mjx": m})
+    # 7. a model without any degree of freedom
+    L = ["geom 1 0", "set 1 type 0", "set 1 size 5 5 0.1", "body 2 0", "set 2 pos 0 0 1", "geom 3 2", "set 3 size 0.1"]
+    co, ho = pair.load(L)
+    orc.n += 1
+    if pair.c_ok and ho.startswith("ok"):
+        pair.set_state({})
+        rc_ = pair.c.ask("forward 0")
+        r = pair.h.ask("forward", timeout=900)
+        out.append({"case": "model with nv = 0", "c_forward": rc_, "mjx_forward": r})
+        if r != "ok":
+            orc.fail("c43:zero-dof-model-valueerror",
+                     "put_model accepts a model without degrees of freedom (a static sphere above a plane) but mjx.forward raises ValueError "
+                     "('Scan across Model with zero DoFs unsupported'); the C engine runs it",
+                     {"model_description": L})
+        else:
+            pair.compare(["xpos", "geom_xpos"], "directed-nodof", {"model_description": L})
 
 
 # ------------------------------------------------------------------------------------------ run
 def run(ctx):
     procs = []
     try:
-        _run(ctx, procs)
+        with G.Pin(["c43_gate"]):
+            _run(ctx, procs)
     finally:
         for p in procs:
             try:
@@ -702,7 +809,7 @@ def _run(ctx, procs):
                and os.path.realpath(env["mjx_file"]).startswith(os.path.realpath(common.REPO)), json.dumps(env)[:1500])
     ctx.assumptions.append("the mujoco wheel of /venv is the MjSpec compiler / MjModel container of the MJX side; every array mjx.Model reads is "
                            "cross-checked against the model the tree's compiler builds from the same description")
-    kernel_streams(ctx, hx, manifest, 40 if quick else 1500)
+    kernel_streams(ctx, hx, manifest, 12 if quick else 1500)
     tm["math streams"] = round(time.time() - t0, 1)
 
     t0 = time.time()
